@@ -113,7 +113,7 @@ def h_wire_two_bags(ctx, opts1, opts2, order):
 
 
 def instances(tier, seed):
-    for order in ('ab', 'ba', 'xab'):
+    for order in ('ab', 'ba', 'xab', 'same', 'same_rev'):
         for o1, o2 in ((OPTIONS[0], OPTIONS[0]), (OPTIONS[0], OPTIONS[5]), (OPTIONS[3], OPTIONS[1])):
             yield 'h_wire_two_bags', dict(opts1=o1, opts2=o2, order=order)
     dags = small_dags()
